@@ -3,6 +3,7 @@
 package transfer
 
 import (
+	"encoding/json"
 	"hash/crc32"
 
 	"github.com/sheerbytes/sheerbytes/pkg/manifest"
@@ -46,3 +47,12 @@ func VerifCoreHashFileChunk(path string, idx uint32, cs uint32, size int64, alg 
 	return hashFileChunk(path, idx, cs, size, alg)
 }
 func VerifCoreCRC32C(b []byte) uint32 { return crc32.Checksum(b, crc32cTable) }
+
+// VerifManifestJSON marshals a manifest exactly like the wire header does.
+func VerifManifestJSON(m manifest.Manifest) []byte {
+	b, _ := json.Marshal(m)
+	return b
+}
+
+// VerifCRC32IEEE is the checksum of the legacy single-file protocol.
+func VerifCRC32IEEE(b []byte) uint32 { return crc32.ChecksumIEEE(b) }
